@@ -4,8 +4,10 @@
 package server
 
 import (
+	"crypto/tls"
 	"errors"
 	"net"
+	"time"
 
 	"github.com/apernet/quic-go"
 	"github.com/apernet/quic-go/http3"
@@ -48,10 +50,37 @@ func zzModelServeQUICConn(s *http3.Server, conn *quic.Conn) error {
 	return errors.New("connection closed by peer")
 }
 
-type zzLcAuth struct{}
+// The server is built by its public constructor; only the QUIC listener behind
+// it is a model.
+//
+//verif:model (*github.com/apernet/quic-go.Transport).Listen
+func zzModelTransportListen(t *quic.Transport, tlsConf *tls.Config, conf *quic.Config) (*quic.Listener, error) {
+	return &quic.Listener{}, nil
+}
 
-func (zzLcAuth) Authenticate(addr net.Addr, auth string, tx uint64) (bool, string) {
-	if auth == "good" {
+//verif:model github.com/apernet/quic-go/http3.ConfigureTLSConfig
+func zzModelConfigureTLS(c *tls.Config) *tls.Config { return c }
+
+type zzLcPacketConn struct{}
+
+func (zzLcPacketConn) ReadFrom(p []byte) (int, net.Addr, error)  { return 0, nil, errors.New("closed") }
+func (zzLcPacketConn) WriteTo(p []byte, a net.Addr) (int, error) { return len(p), nil }
+func (zzLcPacketConn) Close() error                              { return nil }
+func (zzLcPacketConn) LocalAddr() net.Addr                       { return zzNetAddr{"0.0.0.0:443"} }
+func (zzLcPacketConn) SetDeadline(time.Time) error               { return nil }
+func (zzLcPacketConn) SetReadDeadline(time.Time) error           { return nil }
+func (zzLcPacketConn) SetWriteDeadline(time.Time) error          { return nil }
+
+// "good" is always accepted, "once" is a one-time token (accepted the first
+// time it is presented to the authenticator, revoked afterwards), anything
+// else is rejected.
+type zzLcAuth struct{ onceUsed bool }
+
+func (a *zzLcAuth) Authenticate(addr net.Addr, auth string, tx uint64) (bool, string) {
+	if auth == "good" || (auth == "once" && !a.onceUsed) {
+		if auth == "once" {
+			a.onceUsed = true
+		}
 		zzLcAccepted[zzLcCur] = true
 		return true, "alice"
 	}
@@ -85,7 +114,8 @@ func (t *zzLcOnline) TraceStream(stream HyStream, stats *StreamStats) {}
 func (t *zzLcOnline) UntraceStream(stream HyStream)                   {}
 
 // Three connections, one after the other, each with a script of up to two
-// events (auth with good or bad credentials, proxy stream): a connection
+// events (auth with good, bad or one-time credentials, proxy stream) on a
+// server built by NewServer: a connection
 // proxies only after ITS OWN accepted authentication - whatever earlier
 // connections of the same server did (and whatever the server recycles between
 // them); every authenticated connection is reported online once and offline
@@ -95,19 +125,28 @@ func (t *zzLcOnline) UntraceStream(stream HyStream)                   {}
 func ZZ_C01_ConnectionLifecycles() {
 	ob := &zzLcOutbound{}
 	online := &zzLcOnline{}
-	s := &serverImpl{config: &Config{Authenticator: zzLcAuth{}, Outbound: ob, TrafficLogger: online, EventLogger: &zzEvents{}, DisableUDP: true}}
+	srv, err := NewServer(&Config{
+		TLSConfig:     TLSConfig{Certificates: []tls.Certificate{{}}},
+		Conn:          zzLcPacketConn{},
+		Authenticator: &zzLcAuth{}, Outbound: ob, TrafficLogger: online, EventLogger: &zzEvents{}, DisableUDP: true,
+	})
+	verifAssert(err == nil, "the server is built")
+	s := srv.(*serverImpl)
 	authed := 0
+	onceUsed := false // reference: the one-time token has been presented to the authenticator
 	for c := 0; c < 3; c++ {
 		conn := &quic.Conn{}
 		var script []zzLcEvent
 		for e := 0; e < 2; e++ {
-			switch verifChoice("event", 3) {
+			switch verifChoice("event", 4) {
 			case 0:
 				script = append(script, zzLcEvent{auth: true, creds: "good"})
 			case 1:
 				script = append(script, zzLcEvent{auth: true, creds: "bad"})
 			case 2:
 				script = append(script, zzLcEvent{})
+			case 3:
+				script = append(script, zzLcEvent{auth: true, creds: "once"})
 			}
 		}
 		zzLcScript[conn] = script
@@ -118,8 +157,13 @@ func ZZ_C01_ConnectionLifecycles() {
 		si, hi := 0, 0
 		for _, ev := range script {
 			if ev.auth {
-				if ev.creds == "good" {
-					accepted = true
+				if !accepted { // a repeated attempt on an authenticated connection is not evaluated
+					if ev.creds == "good" || (ev.creds == "once" && !onceUsed) {
+						accepted = true
+					}
+					if ev.creds == "once" {
+						onceUsed = true
+					}
 				}
 				verifAssert((zzLcStatus[conn][si] == 233) == accepted, "an auth request is answered 233 exactly when this connection has presented accepted credentials")
 				si++
